@@ -36,7 +36,9 @@ TRUSTED = {
 K1 = {'name': 'K1.default', 'file': 'k1_ch_width.rs', 'inject': 'src/core.rs', 'features': 'default', 'quick': True, 'timeout': 600,
       'harnesses': [{'name': 'k1_ch_width_le_len_utf8'}, {'name': 'k1_probe_must_fail'}]}
 K1MIN = dict(K1, name='K1.no-default-features', features='min')
-KANI = {'K1.default': K1, 'K1.no-default-features': K1MIN}
+K2 = {'name': 'K2.first_fit_n3', 'file': 'k2_first_fit.rs', 'inject': 'src/wrap_algorithms.rs', 'features': 'default', 'quick': False, 'timeout': 1800,
+      'harnesses': [{'name': 'k2_first_fit_partition_and_greedy'}], 'bounded': '3 fragments, quarter-integer widths < 4, whitespace/penalty < 2, two line widths < 8'}
+KANI = {'K1.default': K1, 'K1.no-default-features': K1MIN, 'K2.first_fit_n3': K2}
 
 PROPS = {
     'C01': {
@@ -95,10 +97,11 @@ PROPS = {
         'explanation': 'Proof: the statement is the postcondition of wrap_first_fit and wrap_optimal_fit, discharged by Verus on the extracted functions; BEC re-checks it by execution.',
     },
     'C07': {
-        'units': ['U1'], 'level': 'proof', 'trusted': ['A1', 'A5', 'A12'],
+        'units': ['U1'], 'level': 'proof', 'kani': [K2], 'trusted': ['A1', 'A5', 'A12'],
         'proved_part': 'Verus, all inputs: with acc = left fold of width+whitespace from 0.0 and overflows(a,i,lw) = acc + w_i + p_i > lw evaluated in f64, no non-first fragment of a '
                        'line overflowed when it was added, and the first fragment of every following line did; line k uses the k-th width, the last repeats.',
-        'bounded_part': 'BEC: the same on the real function with real floats; the text-level corollary (wrap == greedy rule over space-delimited words).',
+        'bounded_part': 'BEC: the same on the real function with real floats; the text-level corollary (wrap == greedy rule over the words cut at split points). '
+                        'Thorough tier: Kani K2, bit-precise IEEE-754, 3 fragments with quarter-integer widths (bounded; about 10 min, 13 GB).',
         'explanation': 'Proof: greedy-maximality is the postcondition of wrap_first_fit (exists breaks. lines_match && greedy), discharged by Verus; BEC re-checks by execution.',
     },
     'C08': {
